@@ -35,7 +35,9 @@ MIN = {'quick': {'distinct': 50000,
                             'remainder to first largest part': 1000,
                             'remainder to rest': 1000,
                             'cli split with a reader option that changes '
-                            'the trees': 6}},
+                            'the trees': 6,
+                            'cli split after a transformation that returns '
+                            'a new root': 15}},
        'thorough': {'distinct': 1000000, 'hooks': {'cli.split': 1000}}}
 
 
@@ -187,10 +189,13 @@ def cli_case(ctx, case):
     extra = ['--src-enc', senc, '--dest-enc', denc]
     if case.get('sopts'):
         extra += ['--src-opts'] + case['sopts']
+    more = case.get('newroot') or []
+    if more and not case.get('filter'):
+        extra += ['--trans'] + more
     if case.get('filter'):
         op, val = case['filter']
-        extra += ['--trans', 'filter_by_length', '--params',
-                  'filteroperator:%s' % op, 'filtervalue:%d' % val]
+        extra += ['--trans', 'filter_by_length'] + more + [
+            '--params', 'filteroperator:%s' % op, 'filtervalue:%d' % val]
         keep = [s for s in bank
                 if not {'lt': len(gen.tokens_of(s['root'])) < val,
                         'gt': len(gen.tokens_of(s['root'])) > val,
@@ -310,6 +315,9 @@ def cli_case(ctx, case):
         ctx.stratum('cli source and destination encodings differ')
     if 0 in exp:
         ctx.stratum('cli with an empty part')
+    if case.get('newroot'):
+        ctx.stratum('cli split after a transformation that returns a new '
+                    'root')
     if case.get('sopts') and bank and bank[0]['sid'] != 1:
         ctx.stratum('cli split with a reader option that changes the trees')
 
@@ -350,6 +358,14 @@ def make_cli_case(rng):
         case['filter'] = [rng.choice(['lt', 'gt', 'eq']), rng.randint(1, 6)]
     if rng.random() < 0.4:
         case['sopts'] = ['continuous']
+    if rng.random() < 0.3:
+        # transformations that return a new root: the parts hold what the
+        # transformations returned, as the unsplit output does
+        case['newroot'] = rng.choice([['add_topnode'],
+                                      ['collapse_unary_chains',
+                                       'uncollapse_unary_chains'],
+                                      ['add_topnode', 'collapse_unary_chains',
+                                       'uncollapse_unary_chains']])
     return case
 
 
